@@ -275,13 +275,25 @@ Adjacent(L) == { ab \in ResIds(L) \X ResIds(L) :
                    /\ ab[1][1] = ab[2][1] /\ Before(ab[1], ab[2])
                    /\ ~\E c \in ResIds(L) : c[1] = ab[1][1] /\ Before(ab[1], c) /\ Before(c, ab[2]) }
 
-AgreeDomain(L) ==
+AgreeBase(L) ==
   /\ InDomain(L, 0)
   /\ Cardinality(Models(L)) = 1
-  /\ \A i \in Idx(L) : L[i].alt = "" /\ Copies(L, i) = {i} /\ Partners(L, i) = {} /\ IcodeRank(L[i].ic) <= 26
+  /\ \A i \in Idx(L) : L[i].alt = "" /\ Partners(L, i) = {} /\ IcodeRank(L[i].ic) <= 26
   /\ \A i, j \in Idx(L) : ResId(L[i]) = ResId(L[j]) => L[i].rn = L[j].rn
   /\ \A a, b \in ResIds(L) : (a # b /\ a[1] = b[1]) =>
         /\ (FirstLine(L, a) < FirstLine(L, b)) = Before(a, b)
+
+AgreeDomain(L) == AgreeBase(L) /\ \A i \in Idx(L) : Copies(L, i) = {i}
+
+\* Repeated atom records (same identity, no alternate-location flag, equally occupied): which record a
+\* reader keeps is its own business, so on this domain only what the statement says about AGREEMENT is
+\* demanded (DupFailing in Trace_AtomTable): the same residues, the same atom names, every reported
+\* atom one of the written records, the same answer of every reading on each consecutive pair, |chi| alike.
+DupDomain(L) ==
+  /\ AgreeBase(L)
+  /\ \E i \in Idx(L) : Copies(L, i) # {i}
+  /\ \A i \in Idx(L) : L[i].occ >= 0 /\ \A j \in Copies(L, i) : L[j].occ = L[i].occ
+  /\ \A ab \in Adjacent(L) : ~OnBondSphere(L, ab[1], ab[2])
 
 RKeys(res)  == { <<res[r].ch, res[r].num, res[r].ic, res[r].rn>> : r \in 1..Len(res) }
 AtomSetOf(r) == { r.atoms[a] : a \in 1..Len(r.atoms) }
